@@ -268,3 +268,16 @@ for _pid, _extra in {
     "C19": "Metamorphic: 22 no_proxy entries of no documented form inserted before / after 8 base lists must not change the decision (10 hosts, option and environment).",
 }.items():
     _ext(_pid, _extra)
+
+# forms of caller input (wave o)
+for _pid, _extra in {
+    "C01": "str payloads (ASCII, Latin-1, beyond Latin-1, at the length-form boundaries) with the BINARY / CONT opcodes through send and send_frame, whole and short writes: one well-formed frame whose length field matches, or an exception with nothing written.",
+    "C06": "A fifth entry: the second connection of an object whose first connect() call was given skip_utf8_validation / fire_cont_frame as keyword options.",
+    "C08": "The status-carrying close() call also with the statuses 0 / 65535 / 3000.",
+    "C09": "The subprotocols option also as tuple / iterator / generator: a selection that was not offered is never a success.",
+    "C10": "Offered subprotocol names with upper-case letters.",
+    "C11": "The measured connection may be the second wss connection of the same WebSocket object, after one to another host.",
+    "C15": "Handshakes rejected with 17 statuses (registered or not) x with / without reason phrase / with body, as first outcome and after a lost connection.",
+    "C16": "The second run of an object whose first (clean) run used other keepalive settings.",
+}.items():
+    _ext(_pid, _extra)
